@@ -76,7 +76,7 @@ class DictionaryDataBase(DataBase):
             matches = self._statement_holds(data, data_filter.filter_statement_1)
             if data_filter.filter_statement_2 is not None:
                 second = self._statement_holds(data, data_filter.filter_statement_2)
-                if str(data_filter.logical_operator) == "and":
+                if str(data_filter.logical_operator or "and") == "and":
                     matches = matches and second
                 else:
                     matches = matches or second
